@@ -147,6 +147,9 @@ def crossratio(
         a, b, c, d = np.broadcast_arrays(a.array, b.array, c.array, d.array)
         o = []
 
+    # the products of determinants below overflow 64 bit integers already for integer coordinates of a few thousand
+    a, b, c, d = (np.asarray(x, dtype=np.result_type(x, np.float64)) for x in (a, b, c, d))
+
     ac = det(np.stack([*o, a, c], axis=-2))
     bd = det(np.stack([*o, b, d], axis=-2))
     ad = det(np.stack([*o, a, d], axis=-2))
